@@ -1131,9 +1131,18 @@ where
         XFRState::AXFRFirstSoa(_)
         | XFRState::IXFRFirstSoa(_)
         | XFRState::IXFRFirstDiffSoa(_)
-        | XFRState::IXFRSecondDiffSoa(_) =>
-            // No need to check anything.
-            {}
+        | XFRState::IXFRSecondDiffSoa(_) => {
+            // In subsequent messages the question section may be empty.
+            // If it is not, it has to be the one from the query.
+            if answer.header_counts().qdcount() != 0
+                && !msg.is_answer(answer.for_slice())
+            {
+                xfr_state = XFRState::Error;
+                // If we detect an error, then keep the stream open. We are
+                // likely out of sync with respect to the sender.
+                return (false, xfr_state, false);
+            }
+        }
         XFRState::Done => {
             // We should not be here. Switch to error state.
             xfr_state = XFRState::Error;
